@@ -5,7 +5,10 @@ FClass == IF flist = <<99>> THEN "all"
           ELSE <<IF \E i, j \in DOMAIN Fs : i < j /\ Fs[i] > Fs[j] THEN "permuted" ELSE "ascending",
                  IF \E i, j \in DOMAIN Fs : i # j /\ Fs[i] = Fs[j] THEN "repeats" ELSE "distinct",
                  IF \E i \in DOMAIN flist : flist[i] = 0 THEN "grid_level" ELSE "fields-only", Len(Fs)>>
-Sig == <<Len(M), lim, [l \in 1..Len(M) |-> Len(M[l])], serial, FClass>>
+\* how each selected level sits under the next one: every cell refined ("full"), some ("partial"), or nothing above it ("top")
+NestClass == [l \in 0..lim |-> IF l = lim THEN "top"
+                                ELSE IF \A c \in LevelCells(M, l) : CoveredByFiner(M, l, c, lim) THEN "full" ELSE "partial"]
+Sig == <<Len(M), lim, [l \in 1..Len(M) |-> Len(M[l])], serial, FClass, NestClass>>
 Scenario == [prop |-> "C08", sig |-> Sig, n1 |-> N1, n2 |-> N2, mesh |-> M, lim |-> lim, serial |-> serial, flist |-> flist,
              expect |-> [i \in 0..(N1 * Pow2(lim) - 1) |-> [j \in 0..(N2 * Pow2(lim) - 1) |-> CoverSpec(M, lim, <<i, j>>)]]]
 Emit == pc = "done" => PrintT(ToJson(Scenario))
